@@ -404,7 +404,7 @@ pub fn run(prop: &str, seed: u64, nhist: usize, trace_path: Option<&str>, rep: &
                 trace.extend(evs.into_iter().flatten());
             }
             rep.eval(hash_of(&(pi, cut, "trunc-then-reset")), true);
-            if r.0 == Verdict::Panic || (fresh.0 != Verdict::Panic && ((r.0 == Verdict::Ok) != (fresh.0 == Verdict::Ok) || (r.0 == Verdict::Ok && r.1 != fresh.1))) {
+            if (r.0 == Verdict::Panic && fresh.0 != Verdict::Panic) || (r.0 != Verdict::Panic && fresh.0 != Verdict::Panic && ((r.0 == Verdict::Ok) != (fresh.0 == Verdict::Ok) || (r.0 == Verdict::Ok && r.1 != fresh.1))) {
                 rep.violation(prop, format!("LzmaDecoder [decompress(first {} of {} bytes), reset(None), decompress(whole stream)]: {:?} {}, a new decoder gives {:?}", cut, e.payload.len(), r.0, r.2, fresh.0),
                     json!({"kind": "reuse", "decoder": "lzma", "seed": seed, "history": 0, "ops": [format!("truncated@{}", cut), "reset(None)", "whole"]}));
             }
@@ -426,7 +426,7 @@ pub fn run(prop: &str, seed: u64, nhist: usize, trace_path: Option<&str>, rep: &
                     trace.extend(evs.into_iter().flatten());
                 }
                 rep.eval(hash_of(&(pi, cut, "l2-trunc-then-reset")), true);
-                if r.0 == Verdict::Panic || (fresh.0 != Verdict::Panic && ((r.0 == Verdict::Ok) != (fresh.0 == Verdict::Ok) || (r.0 == Verdict::Ok && r.1 != fresh.1))) {
+                if (r.0 == Verdict::Panic && fresh.0 != Verdict::Panic) || (r.0 != Verdict::Panic && fresh.0 != Verdict::Panic && ((r.0 == Verdict::Ok) != (fresh.0 == Verdict::Ok) || (r.0 == Verdict::Ok && r.1 != fresh.1))) {
                     rep.violation(prop, format!("Lzma2Decoder [decompress(first {} of {} bytes), reset(), decompress(whole stream)]: {:?} {}, a new decoder gives {:?}", cut, s2.len(), r.0, r.2, fresh.0),
                         json!({"kind": "reuse", "decoder": "lzma2", "seed": seed, "history": 0, "ops": [format!("truncated@{}", cut), "reset()", "whole"]}));
                 }
@@ -456,7 +456,7 @@ pub fn run(prop: &str, seed: u64, nhist: usize, trace_path: Option<&str>, rep: &
             let r = dec1(&mut d, &ea.payload);
             cycle += 1;
             rep.eval(hash_of(&(pi, cycle, "many-cycles")), true);
-            if r.0 == Verdict::Panic || (fa.0 != Verdict::Panic && ((r.0 == Verdict::Ok) != (fa.0 == Verdict::Ok) || (r.0 == Verdict::Ok && r.1 != fa.1))) {
+            if (r.0 == Verdict::Panic && fa.0 != Verdict::Panic) || (r.0 != Verdict::Panic && fa.0 != Verdict::Panic && ((r.0 == Verdict::Ok) != (fa.0 == Verdict::Ok) || (r.0 == Verdict::Ok && r.1 != fa.1))) {
                 rep.violation(prop, format!("LzmaDecoder after {} reuse cycles (stream A again after {} cycles of stream B): {:?} {}, a new decoder gives {:?}", cycle, gap - 1, r.0, r.2, fa.0),
                     json!({"kind": "reuse", "decoder": "lzma", "seed": seed, "history": 0, "ops": [format!("cycle {}", cycle)]}));
                 break 'gaps;
